@@ -43,6 +43,8 @@ def factor_str(t):
     """how formulaic prints the factor for an operand token"""
     if t.startswith("`") and t.endswith("`"):
         inner = t[1:-1]
+        if NUM_RE.match(inner):
+            return "\x00" + inner  # a quoted NAME that looks like a number is not a literal (marker stripped when printing)
         return "`%s`" % inner if ":" in inner else inner
     if (t.startswith("{") and t.endswith("}")) or t.endswith(")"):
         import ast
@@ -90,7 +92,7 @@ class OSet:
         return OSet([t for t in self if key(t) not in ok])
 
     def tolist(self):
-        return [":".join(t) for t in self]
+        return [":".join(t).replace("\x00", "") for t in self]
 
 
 def has_literal(oset):
